@@ -212,5 +212,5 @@ let () =
    (shape and every element); the expected view shape comes from the case line ---------- *)
 let () =
   register "attr" (fun a -> match a with
-    | [_name; _a; _b; _params; shape] -> both ("reproduces " ^ show_list (getL shape)) true
+    | _name :: _a :: _b :: _params :: shape :: _dtype -> both ("reproduces " ^ show_list (getL shape)) true
     | _ -> failwith "attr")
